@@ -53,10 +53,17 @@ SPECS = {
 }
 
 
+# reactions used by ONE property only (not returned by names(), so the other checks' corpora do not change)
+EXTRA = {
+    # massive spin-1 FINAL state behind a node whose helicity state is massless (C05, axis-angle alignment)
+    "tau_nurhopi_hel": ("tau-", ["nu(tau)", "rho(770)0", "pi-"], ["a(1)(1260)-"], ["weak"], "helicity"),
+}
+
+
 def generate(name: str):
     import qrules
 
-    ini, fin, inter, itypes, formalism = SPECS[name]
+    ini, fin, inter, itypes, formalism = {**SPECS, **EXTRA}[name]
     kw = {}
     if inter is not None:
         kw["allowed_intermediate_particles"] = inter
@@ -88,7 +95,7 @@ if __name__ == "__main__":
     import qrules
 
     if sys.argv[1] == "build":
-        for n in sys.argv[2:] or SPECS:
+        for n in sys.argv[2:] or {**SPECS, **EXTRA}:
             try:
                 r = generate(n)
             except Exception as e:  # noqa: BLE001
